@@ -42,6 +42,11 @@ EXC_CODE = {"IndexError": 0, "ValueError": 1, "NameError": 2}
 #   [0,x,[items]] x = [..]      [1,x,[a,b,st,m,c]] x = [i*m+c for i in range(a,b,st)]     [2,x,y] x = y
 #   [3,x,v] x.append(v)   [4,x,v] x.remove(v)   [5,x,i] mon.write(x[i])   [6,x,i] r = f(x,i); mon.write(r)
 #   [7,x,v] r = g(x,v); mon.write(r)
+#   [8,x,y,i] x.append(y[i])   [9,x,y,i] x.remove(y[i])      (the argument is an element of a list - of x itself when y == x)
+#   [10,[x..],[rhs..]] x1, .., xn = r1, .., rn   with rhs = [0,y] (the list y) | [1,[items]] (a literal)
+#   [11,x,y] x = ident(y)   with  def ident(xs): return xs
+#   a program may carry "lines": {"head","setup","body"} - the literal script lines (witnesses of findings whose
+#   statements are outside the wire vocabulary); such programs never go to the model
 # --------------------------------------------------------------------------
 
 def par(v: int) -> str:
@@ -67,7 +72,26 @@ def stmt_lines(s):
         return [f"r = f(l{s[1]}, {s[2]})", "mon.write(r)"]
     if t == 7:
         return [f"r = g(l{s[1]}, {s[2]})", "mon.write(r)"]
+    if t == 8:
+        return [f"l{s[1]}.append(l{s[2]}[{s[3]}])"]
+    if t == 9:
+        return [f"l{s[1]}.remove(l{s[2]}[{s[3]}])"]
+    if t == 10:
+        rhs = [f"l{r[1]}" if r[0] == 0 else "[" + ", ".join(str(v) for v in r[1]) + "]" for r in s[2]]
+        return [", ".join(f"l{x}" for x in s[1]) + " = " + ", ".join(rhs)]
+    if t == 11:
+        return [f"l{s[1]} = ident(l{s[2]})"]
     raise ValueError(s)
+
+
+def stmt_names(s):
+    """every list name a statement mentions"""
+    t = s[0]
+    if t == 10:
+        return list(s[1]) + [r[1] for r in s[2] if r[0] == 0]
+    if t in (2, 8, 9, 11):
+        return [s[1], s[2]]
+    return [s[1]]
 
 
 def gated(prog) -> bool:
@@ -76,6 +100,9 @@ def gated(prog) -> bool:
 
 def lines_of(prog):
     """-> (head, setup, body) source lines; body lines are relative to the `while True:` block"""
+    if prog.get("lines"):
+        ln = prog["lines"]
+        return list(ln["head"]), list(ln["setup"]), list(ln["body"])
     stmts = prog["setup"] + prog["body"]
     head = ["from Reduino.Communication import SerialMonitor"]
     if gated(prog):
@@ -87,6 +114,8 @@ def lines_of(prog):
         head += ["def f(xs, k):", "    return xs[k]"]
     if any(s[0] == 7 for s in stmts):
         head += ["def g(xs, v):", "    xs.append(v)", "    return xs[0]"]
+    if any(s[0] == 11 for s in stmts):
+        head += ["def ident(xs):", "    return xs"]
     if any(s[0] in (6, 7) for s in stmts):
         head += ["r = 0"]
     setup = [ln for s in prog["setup"] for ln in stmt_lines(s)]
@@ -122,9 +151,13 @@ def rename(stmts, off):
     out = []
     for s in stmts:
         s = list(s)
-        s[1] += off
-        if s[0] == 2:
-            s[2] += off
+        if s[0] == 10:
+            s[1] = [x + off for x in s[1]]
+            s[2] = [[0, r[1] + off] if r[0] == 0 else [1, list(r[1])] for r in s[2]]
+        else:
+            s[1] += off
+            if s[0] in (2, 8, 9, 11):
+                s[2] += off
         out.append(s)
     return out
 
@@ -132,7 +165,7 @@ def rename(stmts, off):
 def nvars(part):
     m = -1
     for s in part["setup"] + part["body"]:
-        m = max(m, s[1], s[2] if s[0] == 2 else -1)
+        m = max([m] + stmt_names(s))
     return m + 1
 
 
@@ -152,32 +185,36 @@ def combine(parts, N):
 def guard_py(prog) -> bool:
     """single_owner of coq/Device/DListProg.v on the elaborated program, re-implemented for the oracle
     (cross-checked against the model's guard bit on every case)"""
+    if prog.get("lines"):
+        return False
     decl = []
+
+    def use_ok(s):
+        t = s[0]
+        if t == 2:
+            return s[1] == s[2] and s[1] in decl
+        if t in (3, 4, 5, 6):
+            return s[1] in decl
+        if t in (8, 9):
+            return s[1] in decl and s[2] in decl
+        if t == 10:
+            xs, rs = s[1], s[2]
+            if any(r[0] != 0 for r in rs):
+                return False
+            ys = [r[1] for r in rs]
+            return (len(xs) == len(ys) and len(set(xs)) == len(xs) and len(set(ys)) == len(ys)
+                    and all(y in xs for y in ys) and all(x in decl for x in xs))
+        return False
+
     for s in prog["setup"]:
         t = s[0]
         if t in (0, 1):
             if s[1] in decl:
                 return False
             decl.append(s[1])
-        elif t == 2:
-            if not (s[1] == s[2] and s[1] in decl):
-                return False
-        elif t in (3, 4, 5, 6):
-            if s[1] not in decl:
-                return False
-        else:
+        elif not use_ok(s):
             return False
-    for s in prog["body"]:
-        t = s[0]
-        if t == 2:
-            if not (s[1] == s[2] and s[1] in decl):
-                return False
-        elif t in (3, 4, 5, 6):
-            if s[1] not in decl:
-                return False
-        else:
-            return False
-    return True
+    return all(use_ok(s) for s in prog["body"])
 
 
 # --------------------------------------------------------------------------
@@ -222,6 +259,18 @@ def sim(prog):
             env[s[1]][s[2]]
         elif t == 7:
             env[s[1]].append(s[2])
+        elif t == 8:
+            env[s[1]].append(env[s[2]][s[3]])
+        elif t == 9:
+            env[s[1]].remove(env[s[2]][s[3]])
+        elif t == 10:
+            vals = [env[r[1]] if r[0] == 0 else list(r[1]) for r in s[2]]
+            if len(vals) != len(s[1]):
+                raise ValueError
+            for x, v in zip(s[1], vals):
+                env[x] = v
+        elif t == 11:
+            env[s[1]] = env[s[2]]
     lives = []
     try:
         for s in prog["setup"]:
@@ -265,17 +314,66 @@ def cur_lists(stmts):
                 env[s[1]].append(s[2])
             elif t == 4:
                 env[s[1]].remove(s[2])
-        except (ValueError, KeyError):
+            elif t == 8:
+                env[s[1]].append(env[s[2]][s[3]])
+            elif t == 9:
+                env[s[1]].remove(env[s[2]][s[3]])
+            elif t == 10:
+                vals = [env[r[1]] if r[0] == 0 else list(r[1]) for r in s[2]]
+                for x, v in zip(s[1], vals):
+                    env[x] = v
+            elif t == 11:
+                env[s[1]] = env[s[2]]
+        except (ValueError, KeyError, IndexError):
             pass
     return env
 
 
-def gen_use(rng, stmts, names, allow=(3, 4, 5, 6, 2)):
+def gen_index(rng, n):
+    return rng.choice([0, -1, n - 1, -n, rng.randrange(-n, n)])
+
+
+def gen_perm(rng, names):
+    """a tuple assignment among 2..n of the declared names: swap, rotation or a random permutation"""
+    k = rng.randint(2, min(len(names), 4))
+    xs = rng.sample(names, k)
+    shape = rng.choice(["rot", "rot", "swap", "perm"])
+    if shape == "swap" or k == 2:
+        ys = list(xs)
+        ys[0], ys[1] = ys[1], ys[0]
+    elif shape == "rot":
+        ys = xs[1:] + xs[:1]
+    else:
+        ys = list(xs)
+        rng.shuffle(ys)
+    return [10, xs, [[0, y] for y in ys]]
+
+
+def gen_use(rng, stmts, names, allow=(3, 4, 5, 6, 2, 8, 8, 9, 10)):
     """one in-guard statement that is valid right after `stmts`"""
     env = cur_lists(stmts)
     x = rng.choice(names)
     cur = env.get(x, [])
     t = rng.choice(allow)
+    if t == 10:
+        if len(names) >= 2:
+            return gen_perm(rng, names)
+        t = 8
+    if t == 8:
+        # the appended value is an element of a list: of x itself (argument aliasing) two times out of three
+        y = x if rng.random() < 0.67 else rng.choice(names)
+        if not env.get(y):
+            y = x
+        if env.get(y):
+            return [8, x, y, gen_index(rng, len(env[y]))]
+        t = 3
+    if t == 9:
+        if cur:
+            cands = [(y, i) for y in names for i, v in enumerate(env.get(y, [])) if v in cur and (y == x or rng.random() < 0.5)]
+            y, i = rng.choice(cands)
+            n = len(env[y])
+            return [9, x, y, rng.choice([i, i - n])]
+        t = 3
     if t == 4 and not cur:
         t = 3
     if t in (5, 6) and not cur:
@@ -310,7 +408,17 @@ def gen_guard_part(rng, N, balanced, pattern=None):
             for _ in range(rng.randint(1, 3)):
                 x = rng.choice(names)
                 cur = cur_lists(setup + body).get(x, [])
-                if cur and rng.random() < 0.4:
+                r = rng.random()
+                if cur and r < 0.25:
+                    # rotate through the list's own elements: x.append(x[i]); x.remove(x[j])
+                    n = len(cur)
+                    pair = [[8, x, x, gen_index(rng, n)], [9, x, x, rng.choice([0, -1, -(n + 1), n])]]
+                elif cur and r < 0.35:
+                    y = rng.choice(names)
+                    if not cur_lists(setup + body).get(y):
+                        y = x
+                    pair = [[8, x, y, gen_index(rng, len(cur_lists(setup + body)[y]))], [9, x, x, -1]]
+                elif cur and r < 0.6:
                     e = cur[0]          # rotate: remove the first occurrence, append it again
                     pair = [[4, x, e], [3, x, e]]
                 else:
@@ -322,7 +430,7 @@ def gen_guard_part(rng, N, balanced, pattern=None):
                 gates[pos:pos] = [t, t]
             for _ in range(rng.randint(0, 3)):
                 pos = rng.randint(0, len(body))
-                body.insert(pos, gen_use(rng, setup + body[:pos], names, allow=(5, 6, 2, 5)))
+                body.insert(pos, gen_use(rng, setup + body[:pos], names, allow=(5, 6, 2, 5, 10, 10)))
                 gates.insert(pos, gate())
         else:
             for _ in range(rng.randint(1, 5)):
@@ -350,7 +458,11 @@ def gen_index_error_part(rng, N):
     x = rng.choice(names)
     n = len(env[x])
     i = rng.choice([n, n, n + 1, -n - 1, -n - 5, -n - 6, n + 3])
-    seq.insert(pos, [rng.choice([5, 5, 6]), x, i])
+    t = rng.choice([5, 5, 6, 8, 8, 9])
+    if t in (8, 9):
+        seq.insert(pos, [t, rng.choice(names), x, i])      # x2.append(x[i]) / x2.remove(x[i]) with i out of range
+    else:
+        seq.insert(pos, [t, x, i])
     if where == "body":
         part["gates"].insert(pos, -1)
     part["kind"] = "index-error"
@@ -359,7 +471,7 @@ def gen_index_error_part(rng, N):
 
 def gen_outside_part(rng, N):
     """aliasing, re-assignment, loop locals, by-value mutation: outside the single-owner guard"""
-    kind = rng.choice(["alias", "alias", "reassign", "looplocal", "byvalue", "mixed", "clone"])
+    kind = rng.choice(["alias", "alias", "reassign", "looplocal", "byvalue", "mixed", "clone", "tuple", "tuple", "ret"])
     a = [0, 0, [rng.choice(VALS) for _ in range(rng.choice([1, 2, 3]))]]
     setup, body = [a], []
     slen = {0: len(a[2])}
@@ -376,6 +488,44 @@ def gen_outside_part(rng, N):
         ops = [[3, 1, 5], [4, 0, 5], [3, 0, 6], [4, 1, 6], [5, 0, -1], [5, 1, 0], [3, 0, 8], [4, 0, 8], [2, 1, 0], [2, 0, 1]]
         for _ in range(rng.randint(1, 4)):
             body.append(rng.choice(ops))
+    elif kind == "tuple":
+        # tuple assignments that are NOT a permutation of declared names: a literal on the right (the target's old
+        # buffer is dropped without delete[]), the same name twice (two owners), undeclared targets (struct copies)
+        b = [0, 1, [rng.choice(VALS) for _ in range(rng.choice([1, 2, 3]))]]
+        setup.append(b)
+        shape = rng.choice(["lit", "lit", "dup", "new", "lit2", "self-elem"])
+        where = body if rng.random() < 0.7 else setup
+        if shape == "lit":
+            where.append([10, [0, 1], [[1, [rng.choice(VALS) for _ in range(slen[0])]], [0, 0]]])
+        elif shape == "lit2":
+            where.append([10, [0, 1], [[1, [7] * slen[0]], [1, [8] * len(b[2])]]])
+        elif shape == "dup":
+            where.append([10, [0, 1], [[0, 1], [0, 1]]])
+            body += rng.choice([[[5, 0, 0]], [[3, 0, 9], [5, 1, 0]], [[3, 1, 9], [4, 1, 9], [5, 0, -1]]])
+        elif shape == "new":
+            # all targets new: at top level two global struct copies, in the loop two locals of loop()
+            where.append([10, [2, 3], [[0, 1], [0, 0]]])
+            (body if where is body or rng.random() < 0.5 else setup).append([5, 2, 0])
+            if rng.random() < 0.5:
+                body += [[3, 0, 9], [5, 3, 0]]
+        else:
+            where.append([10, [0, 1], [[0, 1], [0, 0]]])
+            body += [[8, 0, 1, 0], [9, 0, 0, -1]]
+        body.append([5, 0, -1])
+    elif kind == "ret":
+        # x = ident(y): __redu_list_assign from a temporary struct copy of y (x == y: the deleted buffer is the source)
+        setup.append([0, 1, [rng.choice(VALS) for _ in range(slen[0])]])
+        shape = rng.choice(["self", "self", "other", "new"])
+        where = body if rng.random() < 0.6 else setup
+        if shape == "self":
+            where.append([11, 0, 0])
+        elif shape == "other":
+            where.append([11, 1, 0])
+            body += rng.choice([[[5, 1, 0]], [[3, 1, 5], [4, 1, 5]], [[3, 0, 5], [5, 1, -1], [4, 0, 5]]])
+        else:
+            where.append([11, 2, 0])
+            body += [[5, 2, 0]]
+        body.append([5, 0, 0])
     elif kind == "reassign":
         where = body if rng.random() < 0.7 else setup
         if rng.random() < 0.5:
@@ -417,7 +567,7 @@ def gen_outside_part(rng, N):
 
 
 EX_ALPHABET = [[3, 0, 5], [4, 0, 5], [4, 0, 1], [5, 0, -1], [5, 0, 1], [5, 0, 2], [2, 0, 0], [2, 1, 0], [0, 0, [7, 8]],
-               [5, 1, 0], [3, 1, 6], [7, 0, 9], [6, 0, -2]]
+               [5, 1, 0], [3, 1, 6], [7, 0, 9], [6, 0, -2], [8, 0, 0, -1], [9, 0, 0, 0], [11, 0, 0]]
 
 
 def gen_exhaustive_parts(max_len, N):
@@ -568,7 +718,10 @@ def load_findings(ctx):
 
 def finding_reproduces(f) -> bool:
     w = f["witness"]
-    prog = w["program"]
+    prog = dict(w["program"])
+    if prog.get("lines"):
+        prog.setdefault("setup", [])
+        prog.setdefault("body", [])
     res = run_all([prog])[0]
     if not py_ok(res["py"], prog["N"]):
         return False            # the witness must be a script CPython runs without exception
